@@ -8,19 +8,24 @@ Main theorems
 * `C10_evalVal_tag_report`, `C10_evalVal_tag_datasource` — a planned field value only yields values of its declared type,
   nil only if declared optional (all ten value kinds, both packages).
 * `C10_sound` (= `C10_full_statement_holds`) — for EVERY query tree of the modelled language (both packages, all
-  filters, the three joins, FromDatasource/ToDatasource, the reduction datasource with its aligner and its
+  row-wise filters, the stream filters: aligner of both packages with and without fill mode, delta and rate filter;
+  the three joins, FromDatasource/ToDatasource, the reduction datasource with its aligner and its
   empty-source fallback): over schema-conforming inputs `Execute` is an error or yields a result whose metadata has
   unique non-empty URNs and valid types, whose delivered rows all conform, and whose timestamps are strictly
   increasing.  `C10_collected_rows_conform`: what the terminal returns is either a failure or conforming rows.
 * `C10_rejects_*` — each documented typing rule as an explicit implication.
 * `C10_no_pull_on_error` — the outcome of planning (error class or metadata) is the same for the query with all its
   input rows erased: no record is consulted before `Execute` returns.
-Not in the model (hence not in the theorems): StaticStructDatasource (reflection), the aligner/delta/rate FILTERS used
-stand-alone and fill modes (C13–C16), calendar alignment periods (only fixed periods), FilteredMulti*/FilterAware*.
+* `C10_filter_chain` — `NewFilteredDataSource(ds, f1, …, fn)` with row-wise and stream filters mixed is the
+  sequential application of the filters, and is sound.
+Not in the model (hence not in the theorems): StaticStructDatasource (reflection), calendar alignment periods (only
+fixed periods; a zero-value `AlignerFilter{}` without a period is not constructible through the constructors and is
+not modelled), FilteredMulti*/FilterAware*.
 -/
 import ShpanVerif.Proofs.QueryJoinSound
 import ShpanVerif.Proofs.QueryNoPull
 import ShpanVerif.Proofs.QueryReduce
+import ShpanVerif.Proofs.QueryXFilters
 
 namespace ShpanVerif.Props.C10
 open ShpanVerif.Model.Query ShpanVerif.Proofs.Query List
@@ -63,10 +68,12 @@ theorem C10_evalVal_tag_datasource (v : DVal D) (fm : FieldMeta) (vm : ValueMeta
 /-! ## query level -/
 
 mutual
-  /-- every static input of the tree is schema-conforming (valid metadata, conforming rows, increasing timestamps) -/
+  /-- every static input of the tree is schema-conforming (valid metadata, conforming rows, increasing timestamps);
+  every fixed alignment period is positive (`NewFixedAlignmentPeriod` panics otherwise) -/
   def WfR : RDs D → Prop
     | .static metas rows => StaticOkR metas rows
     | .filtered ds _ => WfR ds
+    | .xfiltered ds f => WfR ds ∧ f.periodOk
     | .join _ srcs => WfRL srcs
     | .fromDs d => WfD d
   def WfRL : RDsL D → Prop
@@ -75,6 +82,7 @@ mutual
   def WfD : DDs D → Prop
     | .static fm rows => StaticOkD fm rows
     | .filtered d _ => WfD d
+    | .xfiltered d f => WfD d ∧ f.periodOk
     | .reduction _ _ _ _ srcs => WfDL srcs
     | .fromReport r _ => WfR r
   def WfDL : DDsL D → Prop
@@ -83,10 +91,12 @@ mutual
 end
 
 mutual
-  /-- the tree contains no reduction datasource -/
+  /-- the tree contains no reduction datasource and no stream filter (aligner / delta / rate): the fragment that has
+  a reference semantics (C11) -/
   def NoRedR : RDs D → Prop
     | .static _ _ => True
     | .filtered ds _ => NoRedR ds
+    | .xfiltered _ _ => False
     | .join _ srcs => NoRedRL srcs
     | .fromDs d => NoRedD d
   def NoRedRL : RDsL D → Prop
@@ -95,6 +105,7 @@ mutual
   def NoRedD : DDs D → Prop
     | .static _ _ => True
     | .filtered d _ => NoRedD d
+    | .xfiltered _ _ => False
     | .reduction _ _ _ _ _ => False
     | .fromReport r _ => NoRedR r
 end
@@ -123,6 +134,12 @@ mutual
       · simp at h
       · rename_i r1 h1
         exact applyRFs_sound O fs (soundR fix from_ to ds r1 hw h1) h
+    | .xfiltered ds f, res, hw, h => by
+      simp only [execR, bind, Except.bind] at h
+      split at h
+      · simp at h
+      · rename_i r1 h1
+        exact applyRXF_sound O hw.2 (soundR fix from_ to ds r1 hw.1 h1) h
     | .join jt srcs, res, hw, h => by
       simp only [execR] at h
       split at h
@@ -168,6 +185,12 @@ mutual
       · simp at h
       · rename_i r1 h1
         exact applyDFs_sound O fs (soundD fix from_ to d r1 hw h1) h
+    | .xfiltered d f, res, hw, h => by
+      simp only [execD, bind, Except.bind] at h
+      split at h
+      · simp at h
+      · rename_i r1 h1
+        exact applyDXF_sound O hw.2 (soundD fix from_ to d r1 hw.1 h1) h
     | .reduction rt period afm fb srcs, res, hw, h => by
       simp only [execD] at h
       split at h
@@ -249,8 +272,9 @@ mutual
             · exact soundDL fix from_ to period hp l rs hw.2 hrs r' hr'
 end
 
-/-- **C10** for every query tree of both packages (values, all filters, the three joins, the bridges, the reduction
-datasource with its aligner and its empty-source fallback) -/
+/-- **C10** for every query tree of both packages (values, all row-wise filters, the stream filters — aligner with and
+without fill mode, delta, rate —, the three joins, the bridges, the reduction datasource with its aligner and its
+empty-source fallback) -/
 theorem C10_sound (fix : Bool) (from_ to : Int) :
     (∀ (q : RDs D) (res : RResult D), WfR q → execR O fix from_ to q = .ok res → RSound res) ∧
     (∀ (q : DDs D) (res : DResult D), WfD q → execD O fix from_ to q = .ok res → DSound res) :=
@@ -498,6 +522,69 @@ theorem C10_rejects_align_non_numeric (fix : Bool) (from_ to period : Int) (d : 
   simp only at h
   simp [execDLAligned, hd, h]
 
+/-- datasource aligner filter (stand-alone, with or without fill mode): a non-numeric field is rejected -/
+theorem C10_rejects_align_filter_non_numeric (p : Int) (fill : Option FillMode) (res : DResult D)
+    (h : res.1.dt.isNumeric = false) : applyDXF O (.align p fill) res = .error .alignNonNumeric := by
+  simp [applyDXF, alignDF, h]
+
+/-- report aligner filter: one non-numeric field among the fields is enough to be rejected -/
+theorem C10_rejects_align_report_non_numeric (p : Int) (fill : Option FillMode) (res : RResult D)
+    (h : ∃ m ∈ res.1, m.dt.isNumeric = false) : applyRXF O (.align p fill) res = .error .alignNonNumeric := by
+  obtain ⟨m, hm, hn⟩ := h
+  have : res.1.any (fun m => !m.dt.isNumeric) = true := by
+    simp only [any_eq_true]
+    exact ⟨m, hm, by simp [hn]⟩
+  simp [applyRXF, alignRF, this]
+
+/-- delta filter: a non-numeric field is rejected; an optional numeric field is rejected -/
+theorem C10_rejects_delta (nn : Bool) (maxC : D) (res : DResult D) :
+    (res.1.dt.isNumeric = false → applyDXF O (.delta nn maxC) res = .error .deltaNonNumeric) ∧
+    (res.1.dt.isNumeric = true → res.1.required = false →
+      applyDXF O (.delta nn maxC) res = .error .deltaOptional) := by
+  constructor
+  · intro h; simp [applyDXF, deltaF, h]
+  · intro h1 h2; simp [applyDXF, deltaF, h1, h2]
+
+/-- rate filter: a non-numeric field is rejected; an optional numeric field is rejected -/
+theorem C10_rejects_rate (unit : String) (ps : Int) (nn : Bool) (maxC : D) (res : DResult D) :
+    (res.1.dt.isNumeric = false → applyDXF O (.rate unit ps nn maxC) res = .error .rateNonNumeric) ∧
+    (res.1.dt.isNumeric = true → res.1.required = false →
+      applyDXF O (.rate unit ps nn maxC) res = .error .rateOptional) := by
+  constructor
+  · intro h; simp [applyDXF, rateF, h]
+  · intro h1 h2; simp [applyDXF, rateF, h1, h2]
+
+/-- what the accepted stream filters declare: aligner and delta keep the metadata (the aligner keeps `required` as it
+is — an optional field stays optional, its nils are forwarded or fail the interpolation); rate declares a required
+decimal field with the override unit, same urn and custom metadata, for every `perSeconds` (≤ 0 counts as 1) -/
+theorem C10_stream_filter_metadata (f : DXFilter D) (res res' : DResult D) (h : applyDXF O f res = .ok res') :
+    match f with
+    | .align _ _ => res'.1 = res.1 ∧ res.1.dt.isNumeric = true
+    | .delta _ _ => res'.1 = res.1 ∧ res.1.dt.isNumeric = true ∧ res.1.required = true
+    | .rate unit _ _ _ =>
+      res'.1 = { urn := res.1.urn, dt := .decimal, unit := unit, required := true, custom := res.1.custom } ∧
+        res.1.dt.isNumeric = true ∧ res.1.required = true := by
+  cases f with
+  | align p fill =>
+    simp only [applyDXF, alignDF] at h
+    split at h
+    · simp at h
+    · rename_i hn
+      simp only [Except.ok.injEq] at h; subst h
+      exact ⟨rfl, by simpa using hn⟩
+  | delta nn maxC => exact deltaF_ok_meta O h
+  | rate unit ps nn maxC => exact rateF_ok_meta O h
+
+/-- `NewFilteredDataSource(ds, f1, …, fn)` with row-wise and stream filters mixed (the tree `chainD ds stages`):
+its `Execute` is `ds.Execute` followed by the filters one after the other, and — by `C10_sound` — every accepted
+result is sound.  Same for package `report`. -/
+theorem C10_filter_chain (fix : Bool) (from_ to : Int) :
+    (∀ (ds : RDs D) (stages : List (RStage D)),
+      execR O fix from_ to (chainR ds stages) = execR O fix from_ to ds >>= applyRStages O fix stages) ∧
+    (∀ (ds : DDs D) (stages : List (DStage D)),
+      execD O fix from_ to (chainD ds stages) = execD O fix from_ to ds >>= applyDStages O stages) :=
+  ⟨fun ds st => execR_chainR O fix from_ to st ds, fun ds st => execD_chainD O fix from_ to st ds⟩
+
 /-- nullable sides of left/full joins are declared not required (D18) -/
 theorem C10_join_nullable_sides_optional (n idx : Nat) (jt : JoinType) (hnull : nullableAt jt n idx = true)
     (fms : List FieldMeta) (seen : List String) (out : List FieldMeta) (seen' : List String)
@@ -599,5 +686,53 @@ example : ∃ e, replaceF unitOps "a" (.ref "a") ⟨"b", none, ""⟩
     (([⟨"a", .integer, "", true, none⟩, ⟨"b", .integer, "", true, none⟩] : List FieldMeta), ([] : RStream Unit)) =
       .error e :=
   C10_rejects_replace_duplicate_urn unitOps "a" _ _ _ (by decide) rfl
+
+/-- a required integer counter; `NewFilteredDataSource(counter, DeltaFilter, FieldValueFilter(ref + 1),
+InterpolatingAlignerFilter(10ns, forwardFill))`: stream filters and a row-wise filter in ONE filter list -/
+def exCounter : DDs Unit := .static ⟨"c", .integer, "", true, none⟩ [⟨1, .int 5⟩, ⟨2, .int 7⟩, ⟨33, .int 12⟩]
+
+def exStream : DDs Unit :=
+  chainD exCounter [.x (.delta false ()),
+    .plain (.fval (.num .add .ref (.const ⟨.integer, "", true, none⟩ (.int 1))) ⟨"d", none, ""⟩),
+    .x (.align 10 (some .forwardFill))]
+
+theorem exCounter_wf : WfD exCounter := by
+  simp only [exCounter, WfD]
+  refine ⟨⟨by decide, rfl⟩, ?_, ?_⟩
+  · intro r hr; simp at hr; rcases hr with rfl | rfl | rfl <;> simp [tagOk]
+  · simp
+
+theorem exStream_wf : WfD exStream := by
+  simp only [exStream, chainD, WfD, DXFilter.periodOk, and_true]
+  exact ⟨exCounter_wf, by decide⟩
+
+/-- `C10_sound` applies to `exStream`: accepted; deltas 2 and 5, plus one, aligned to the periods 0 and 30 (the second
+value interpolated: with the unit carrier every float is `()` and `int64(())` is 0), the gap at 10 and 20 forward-filled -/
+example : WfD exStream ∧ execD unitOps false 0 100 exStream = .ok
+    (⟨"d", .integer, "", true, none⟩,
+      [some ⟨0, .int 3⟩, some ⟨10, .int 3⟩, some ⟨20, .int 3⟩, some ⟨30, .int 0⟩]) :=
+  ⟨exStream_wf, rfl⟩
+
+/-- the rate filter over the same counter: a required decimal field with the override unit (a carrier in which
+`timeDiff == 0` is false, so that rows are emitted) -/
+example : execD { unitOps with eq := fun _ _ => false } false 0 100 (.xfiltered exCounter (.rate "kb/s" 0 true ())) =
+    .ok (⟨"c", .decimal, "kb/s", true, none⟩, [some ⟨2, .dec ()⟩, some ⟨33, .dec ()⟩]) ∧
+    WfD (.xfiltered exCounter (.rate "kb/s" 0 true ())) :=
+  ⟨rfl, exCounter_wf, trivial⟩
+
+/-- `C10_rejects_delta` / `C10_rejects_rate` / `C10_rejects_align_filter_non_numeric` fire: a string field, and an
+optional integer field -/
+example : applyDXF unitOps (.delta true ()) ((⟨"s", .string, "", true, none⟩ : FieldMeta), ([] : DStream Unit)) =
+    .error .deltaNonNumeric := (C10_rejects_delta unitOps true () _).1 rfl
+example : applyDXF unitOps (.rate "" 1 false ()) ((⟨"o", .integer, "", false, none⟩ : FieldMeta), ([] : DStream Unit)) =
+    .error .rateOptional := (C10_rejects_rate unitOps "" 1 false () _).2 rfl rfl
+example : applyDXF unitOps (.align 10 (some .linear)) ((⟨"b", .boolean, "", true, none⟩ : FieldMeta), ([] : DStream Unit)) =
+    .error .alignNonNumeric := C10_rejects_align_filter_non_numeric unitOps 10 _ _ rfl
+
+/-- `C10_rejects_align_report_non_numeric` fires: one string column among numeric ones -/
+example : applyRXF unitOps (.align 10 none)
+    (([⟨"a", .integer, "", true, none⟩, ⟨"s", .string, "", true, none⟩] : List FieldMeta), ([] : RStream Unit)) =
+      .error .alignNonNumeric :=
+  C10_rejects_align_report_non_numeric unitOps 10 none _ ⟨⟨"s", .string, "", true, none⟩, by simp, rfl⟩
 
 end ShpanVerif.Props.C10
